@@ -21,28 +21,33 @@ def guard_of(t):
 
 
 def guard_release_blocks(b, lock_call):
-    """Blocks that release the guard produced by lock_call: Drop terminators on its local, or moves into mem::drop."""
+    """Blocks that release the guard produced by lock_call: Drop terminators on a local holding it, or a move of it into a call
+    (mem::drop).  Moves of the guard between locals are followed transitively."""
     res = []
     dest = lock_call.dest
     if dest["p"]:
         return res
-    l = dest["l"]
+    holders = {dest["l"]}
+    changed = True
+    while changed:
+        changed = False
+        for ol, ds in b.defs().items():
+            if ol in holders:
+                continue
+            for d in ds:
+                if d[0] == "assign" and d[3]["k"] == "use":
+                    op = d[3]["ops"][0]
+                    if op["k"] == "move" and op["pl"]["l"] in holders and not op["pl"]["p"]:
+                        holders.add(ol)
+                        changed = True
     for bi in b.reachable_blocks():
         t = b.blocks[bi]["term"]
-        if t["k"] == "drop" and t["pl"]["l"] == l and not t["pl"]["p"]:
+        if t["k"] == "drop" and t["pl"]["l"] in holders and not t["pl"]["p"]:
             res.append(bi)
         if t["k"] == "call":
             for a in t["args"]:
-                if a["k"] == "move" and a["pl"]["l"] == l and not a["pl"]["p"]:
+                if a["k"] == "move" and a["pl"]["l"] in holders and not a["pl"]["p"]:
                     res.append(bi)
-    # a guard moved into a named variable: follow one level of moves
-    for ol, ds in b.defs().items():
-        for d in ds:
-            if d[0] == "assign" and d[3]["k"] == "use" and d[3]["ops"][0].get("pl", {}).get("l") == l and not d[3]["ops"][0]["pl"]["p"] and d[3]["ops"][0]["k"] == "move":
-                for bi in b.reachable_blocks():
-                    t = b.blocks[bi]["term"]
-                    if t["k"] == "drop" and t["pl"]["l"] == ol and not t["pl"]["p"]:
-                        res.append(bi)
     return res
 
 
